@@ -718,6 +718,12 @@ class JSONPatch:
                 raise JSONPatchError(f"{err} ({op.name}:{i})") from err
             except (JSONPointerError, JSONPatchError) as err:
                 raise JSONPatchError(f"{err} ({op.name}:{i})") from err
+            except (LookupError, TypeError, ValueError) as err:
+                # For example, non-standard key/index pointers ("~foo", "#1")
+                # resolve to something that can't be assigned to or deleted.
+                raise JSONPatchError(
+                    f"{err.__class__.__name__}: {err} ({op.name}:{i})"
+                ) from err
 
         return _data
 
